@@ -28,7 +28,7 @@ CFG = dict(
          "(transport write fails) / late (replies after completion, unread messages then cancel), 1..3 in flight, some closed by a read "
          "failure, with and without stats handler; registry size (verif accessor), pending calls and goroutine census compared with the "
          "model after EVERY action and judged by the bound/idle predicates; (b) one connection real client - real server, 10^3 (thorough "
-         "10^5) RPCs of the four kinds (unary, bidi, client-stream, server-stream) x the outcomes ok / error status / cancel / deadline / server reset / failed open / SendMsg whose transport write fails on a healthy connection with one of five error values (plain, wrapped context.DeadlineExceeded, wrapped context.Canceled, io.EOF, a net-style timeout) / handler aborting while the client still sends (late zero-length message, no CloseSend), <= 32 in flight, gated handlers, "
+         "10^5) RPCs of the four kinds (unary, bidi, client-stream, server-stream) x the outcomes ok / error status / cancel / deadline / server reset / failed open / SendMsg whose transport write fails on a healthy connection with one of five error values (plain, wrapped context.DeadlineExceeded, wrapped context.Canceled, io.EOF, a net-style timeout) / handler aborting while the client still sends (late zero-length message, no CloseSend) / NewStream cancelled at once, the opener and the reset reaching the server's read loop back to back (the stream's context may be over before its handler goroutine has run), <= 32 in flight, gated handlers, "
          "virtual-time deadlines; client registry size, stream-loop census, RPCs in flight AND the server connection's stream registry sampled at every quiescent point",
     assumptions=["payloads, metadata and methods are opaque tokens in the model",
                  "transport writes succeed or fail at once (a Write that blocks for ever without honouring its context is outside the hypothesis)",
